@@ -235,6 +235,55 @@ func assign(fv reflect.Value, val any) error {
 	return fmt.Errorf("cannot assign %T to %s", val, fv.Type())
 }
 
+// leafValues flattens a message into path -> printed value (nested singular messages with dots).
+func leafValues(v reflect.Value, prefix string, out map[string]string) {
+	for v.Kind() == reflect.Ptr {
+		if v.IsNil() {
+			return
+		}
+		v = v.Elem()
+	}
+	t := v.Type()
+	for i := 0; i < t.NumField(); i++ {
+		name, ok := tagName(t.Field(i))
+		if !ok {
+			continue
+		}
+		fv := v.Field(i)
+		if _, ok := elemStruct(t.Field(i).Type); ok && fv.Kind() != reflect.Slice {
+			leafValues(fv2ptr(fv), prefix+name+".", out)
+			continue
+		}
+		if s, ok := fv.Interface().(fmt.Stringer); ok && fv.Kind() == reflect.Struct {
+			out[prefix+name] = s.String()
+			continue
+		}
+		out[prefix+name] = fmt.Sprintf("%#v", fv.Interface())
+	}
+}
+
+// diffFields lists the fields in which two messages of the same type differ.
+func diffFields(a, b any) []string {
+	ma, mb := map[string]string{}, map[string]string{}
+	leafValues(reflect.ValueOf(a), "", ma)
+	leafValues(reflect.ValueOf(b), "", mb)
+	d := map[string]bool{}
+	for k, v := range ma {
+		if mb[k] != v {
+			d[k] = true
+		}
+	}
+	for k, v := range mb {
+		if ma[k] != v {
+			d[k] = true
+		}
+	}
+	if reflect.TypeOf(a) != reflect.TypeOf(b) {
+		d["@type"] = true
+	}
+	return sortedKeys(d)
+}
+
 // implementors returns the Go types of all registered proto messages (gogoproto registry, i.e.
 // every generated message linked into the binary) whose pointer type implements iface.
 func implementors(iface reflect.Type) map[string]reflect.Type {
